@@ -168,6 +168,28 @@ def main(chk: C.Check, build_: C.Build) -> None:
     nontrivial = 0
     ast_nodes = 0
     loc_checked = 0
+    kept = L.KeptErrors()
+    kept_failures = 0
+
+    def recheck_kept() -> None:
+        """Parse a few more templates (their errors reach the end of input),
+        then look again at every error raised so far."""
+        nonlocal kept_failures
+        from liquid2.exceptions import LiquidError as _LE
+        env = L.env_for(False)
+        for more in ("{% if x %}\n\nunclosed, and longer than most of the kept sources" + " ." * 40, "{% for a in b %}", "{{ x |", "{% assign v = %}",
+                     "a\n{% case x %}{% when 1 %}", "{% liquid if x\n echo 1 %}"):
+            try:
+                env.from_string(more)
+            except _LE:
+                pass
+            except Exception:  # noqa: BLE001  (C02's business)
+                pass
+        for fail, replay in kept.recheck():
+            kept_failures += 1
+            if kept_failures <= 5:
+                chk.finding("oracle:" + fail.split(":")[0], fail, replay)
+
     loc_line_gt1 = 0
     loc_col0_line_gt1 = 0
     items: list[dict[str, Any]] = []
@@ -200,6 +222,9 @@ def main(chk: C.Check, build_: C.Build) -> None:
             chk.finding(f"PyExc {out[1]} @ {out[2]}", f"tokenize raised {out[1]} in {out[2]}",
                         {"source": src, "shorthand_indexes": sh})
         if out[0] == "lerr":
+            kept.keep(out[3], src, "liquid2.tokenize")
+            if len(kept.items) >= 150:
+                recheck_kept()
             lfail = L.location_check(out[3], src)
             loc_checked += out[2] is not None
             if lfail:
@@ -238,6 +263,9 @@ def main(chk: C.Check, build_: C.Build) -> None:
             err = e
         except Exception:  # noqa: BLE001  (C02's business)
             continue
+        kept.keep(err, src, "Environment().from_string(source).render()")
+        if len(kept.items) >= 40:
+            recheck_kept()
         tok = getattr(err, "token", None)
         if tok is None or tok.start < 0 or getattr(tok, "source", None) != src:
             continue
@@ -251,6 +279,8 @@ def main(chk: C.Check, build_: C.Build) -> None:
             chk.finding("oracle:" + lfail.split(":")[0], lfail,
                         {"source": src, "error": type(err).__name__, "token_start": tok.start,
                          "how": "Environment().from_string(source).render(); exc.context(), detailed_message(), str()"})
+
+    recheck_kept()
 
     # static-analysis variable spans and StrictUndefined error locations (nested paths)
     var_spans = 0
@@ -317,7 +347,7 @@ def main(chk: C.Check, build_: C.Build) -> None:
                  "(i.e. the scanner left lex_markup's CONTENT branch)"),
         "samples": samples,
         "distribution": {"families": fam, "outcomes": outcomes, "bases": len(cs.bases), "ast_nodes_and_expressions_checked": ast_nodes,
-                         "error_locations_checked": loc_checked, "multi_template_render_error_locations_checked": prog_checks, "extracted_message_lines_checked": extr_checks, "analysis_variable_spans_checked": var_spans,
+                         "error_locations_checked": loc_checked, "kept_errors_rechecked_after_later_parses": kept.rechecked, "multi_template_render_error_locations_checked": prog_checks, "extracted_message_lines_checked": extr_checks, "analysis_variable_spans_checked": var_spans,
                          "nested_path_span_and_undefined_location_checks": path_checks, "of_which_on_a_line_after_the_first": loc_line_gt1,
                          "of_which_at_column_0_of_a_later_line": loc_col0_line_gt1,
                          "markup_token_classes_seen": sorted(kinds_seen)},
